@@ -136,30 +136,21 @@ def replay_events(events, build="osmosis", profile=None):
     return hist.findings
 
 
-class SetupFromBoot:
-    """the parts of cosim.Setup the monitors need, recovered from a recorded boot request"""
-
-    def __init__(self, boot):
-        from vlib import bech32
-        from vlib.cosim import Setup
-        import random
-        m = boot["msg"]
-        base = Setup(random.Random(0), {"equal_prefixes": m["native_chain_config"]["account_address_prefix"] == m["protocol_chain_config"]["account_address_prefix"]})
-        self.__dict__.update(base.__dict__)
-        self.contract = boot["self"]
-        self.chain_prefix = boot["chain_prefix"]
-        self.admin = boot["sender"]
-        self.staker = m["native_chain_config"]["staker_address"]
-        self.collector = m["native_chain_config"]["reward_collector_address"]
-        self.channel = m["protocol_chain_config"]["ibc_channel_id"]
-        self.lst = "factory/%s/%s" % (self.contract, m["liquid_stake_token_denom"])
-        self._b = bech32
-
-    def hook_staker(self, channel=None, staker=None):
-        return self._b.hook_account(channel or self.channel, staker or self.staker, self.chain_prefix)
-
-    def hook_collector(self):
-        return self._b.hook_account(self.channel, self.collector, self.chain_prefix)
+def SetupFromBoot(boot):
+    """a cosim.Setup recovered from a recorded boot request (same derived accounts)"""
+    import random
+    from vlib.cosim import Setup
+    m = boot["msg"]
+    eq = m["native_chain_config"]["account_address_prefix"] == m["protocol_chain_config"]["account_address_prefix"]
+    su = Setup(random.Random(0), {"equal_prefixes": eq})
+    su.contract = boot["self"]
+    su.chain_prefix = boot["chain_prefix"]
+    su.admin = boot["sender"]
+    su.staker = m["native_chain_config"]["staker_address"]
+    su.collector = m["native_chain_config"]["reward_collector_address"]
+    su.channel = m["protocol_chain_config"]["ibc_channel_id"]
+    su.lst = "factory/%s/%s" % (su.contract, m["liquid_stake_token_denom"])
+    return su
 
 
 def check(pid, tier, seed):
